@@ -396,6 +396,7 @@ func flightMonitor() {
 // run executes one call and logs its event.
 func (e *Exec) run(c Call) *Event {
 	e.idx++
+	markInflight(e.tr, e.idx, c.Op)
 	ev := &Event{Call: c, Tr: e.tr, I: e.idx, Post: []SlotAtoms{}, Bad: []SlotMsg{}, Rep: []SlotRep{}, Bufch: []int{}, Aux: true, Argok: true, Alias: [][2]int{}, Probe: []ProbeRec{}}
 	var targets []int
 	e.obs = e.obs[:0]
